@@ -5,7 +5,7 @@
    Payload symbols (concretised by the harness):
      P  <rpc-reply ... message-id="ID">     S  </rpc-reply>          D  the XML declaration
      x  an ASCII byte   U  a multi-byte rune   H  '#'   1  digit   N  line feed   _  space
-     L  "<rpc-"   l  "</rpc-"   r  "error"   G  ">"   A  ` a="b"` (attribute)   n  "nc:" prefix piece
+     L  "<rpc-"   l  "</rpc-"   r  "error"   G  ">"   A  ` a="b"` (attribute)   n  "nc:" prefix piece   Q  a processing instruction
    so an rpc-error element is  L r G ... l r G  and a partition can cut the marker between its pieces. *)
 EXTENDS Naturals, Sequences, ScnRand, TLC, Json
 CONSTANT Count
@@ -18,7 +18,8 @@ StrOf(s) == IF s = <<>> THEN "" ELSE s[1] \o StrOf(Tail(s))
 Bodies == << <<"x","x","x">>, <<"x","U","x">>, <<"U","U">>, <<"H","1","N","x">>, <<"N","H","H","x","N">>, <<"x","N","H","1","N","x">>,
              <<"L","r","G","x","l","r","G">>, <<"x","L","r","A","G","U","l","r","G","x">>, <<"L","r","G","l","r","G">>,
              <<"x","_","N","_">>, <<"N","N","x">>, <<"1","1","H","H","N","N","H">>, <<"x","l","r","G">>,
-             <<"x","x","x","x","x","x","x","x","x","x","x","x">>, <<"H">>, <<"x","N","H","H","x","x","N","x">>, <<"x","N","H","H","N","x">> >>
+             <<"x","x","x","x","x","x","x","x","x","x","x","x">>, <<"H">>, <<"x","N","H","H","x","x","N","x">>, <<"x","N","H","H","N","x">>,
+             <<"Q","x","x">>, <<"x","Q","x","Q">>, <<"Q">> >>       \* processing instructions: a second "?>" on the line of the declaration
 HasErr(b) == IsSub(<<"L","r","G">>, b) \/ IsSub(<<"l","r","G">>, b)
 
 RECURSIVE Cut(_, _, _)
